@@ -20,7 +20,8 @@ TRUSTED = [
     'Coq stdlib QArith, Lqa, Reals (chebyshev_is_cos depends on the standard real-number axioms)',
 ]
 ASSUMPTIONS = [
-    'float64 inputs only (integer or float32 abscissa arrays make the basis functions truncate/round: dtype follows x)',
+    'float64 arrays, numpy float64 scalars, Python float and Python int scalars (integer or float32 numpy abscissae make '
+    'the basis functions truncate/round: the output dtype follows x.dtype; not exercised)',
     'orders 1..12 (degrees 0..11), abscissae in [-1,1] for the basis comparison; tolerance 1e-9 absolute',
     'fitting problems are generated well conditioned (cond(alpha) < 1e5, distinct abscissae, >= as many good points as '
     'free parameters when a parameter is fixed); agreement with the exact model is required at 1e-7 relative',
@@ -118,6 +119,11 @@ def gen_basis(ctx):
             xs2 = [C.dyadic(rng, -1, 1, 10), rng.choice([-1.0, 0.0, 1.0])]
             calls.append(('basis-scalar', {'f': 'basis', 'func': func, 'm': m, 'xs': xs2,
                                            'mode': rng.choice(['scalar', 'npscalar'])}))
+            # plain Python numbers: the integers of [-1, 1] as int, and as float
+            calls.append(('basis-pyint', {'f': 'basis', 'func': func, 'm': m, 'xs': [0, 1, -1], 'mode': 'pyint'}))
+            if m in (3, 7, 12):
+                calls.append(('basis-scalar', {'f': 'basis', 'func': func, 'm': m, 'xs': [0.0, 1.0, -1.0, 0.5], 'mode': 'scalar'}))
+                calls.append(('basis-scalar', {'f': 'basis', 'func': func, 'm': m, 'xs': [0.0, -1.0, 0.25], 'mode': 'npscalar'}))
     return calls
 
 
@@ -217,6 +223,9 @@ def gen_fit(ctx):
     return calls
 
 
+BOUNDARY_JUMPS = [(0.0, 2.0, 0.5), (0.0, 1.5, -0.75), (-1.0, 0.0, 0.5), (1.0, 2.5, 0.0), (-2.0, -0.5, 0.75), (0.0, 1.0, -0.25)]
+
+
 def gen_trace(ctx):
     rng = ctx.rng
     calls = []
@@ -248,6 +257,9 @@ def gen_trace(ctx):
             if k % 2 == 1:
                 jl = C.dyadic(rng, lo + 1, hi - 2, 2)
                 c['jump'] = [jl, jl + C.dyadic(rng, 0.5, 2, 2), C.dyadic(rng, -1, 1, 3) or 0.25]
+                if k // 2 < len(BOUNDARY_JUMPS):
+                    # boundary jump parameters: xjumplo = 0, xjumphi = 0, xjumpval = 0, negative values
+                    c['jump'] = list(BOUNDARY_JUMPS[k // 2])
             # conditioning and enough good points per trace
             xmin = c['xmin'] if c['xmin'] is not None else lo
             xmax = c['xmax'] if c['xmax'] is not None else hi
@@ -299,6 +311,12 @@ def gen_eval(ctx):
             jl = xmin + C.dyadic(rng, 0.5, 1.5, 2)
             c['jump'] = [jl, jl + C.dyadic(rng, 0.25, 1, 2), C.dyadic(rng, -1, 1, 3) or 0.5]
             c['ignore_jump'] = rng.random() < 0.3
+        if k < len(BOUNDARY_JUMPS):
+            # stored trace sets whose jump parameters sit on a boundary (XJUMPLO = 0, XJUMPHI = 0, XJUMPVAL = 0, negative)
+            c['xmin'] = xmin = C.dyadic(rng, -3, -1, 2)
+            c['xmax'] = xmax = xmin + C.dyadic(rng, 4, 10, 2 if k % 2 else 0)
+            c['jump'] = list(BOUNDARY_JUMPS[k])
+            c['ignore_jump'] = False
         if rng.random() < 0.5:
             npt = rng.randint(1, 6)
             c['xpos'] = [[C.dyadic(rng, xmin, xmax, 4) for _ in range(npt)] for _ in range(nt)]
